@@ -16,7 +16,7 @@ import (
 )
 
 func init() {
-	for _, p := range []string{"C04", "C05", "C06", "C07", "C08", "C09", "C10", "C17"} {
+	for _, p := range []string{"C04", "C05", "C06", "C07", "C08", "C09", "C10", "C12", "C17"} {
 		p := p
 		props[p] = func(c *fw.Ctx) int { return runGenProp(c, p) }
 	}
@@ -31,6 +31,7 @@ var genRules = map[string]string{
 	"C08": "unmarshal: the C06 encodings damaged by truncation, bit flips, continuation-bit inflation, junk, huge declared lengths, dangling continuation bytes: no panic, allocation sampled with runtime.MemStats, equality whenever both the generated code and dynamicpb accept",
 	"C09": "histories: per message type, 4-12 steps drawn from reflective field mutation (grow / shrink / set / clear), Size, the runtime's own Size+Marshal, Unmarshal of another message, Reset, Clone, and Marshal — each Marshal compared with marshaling a fresh deep copy (obtained through the runtime's encoder) of the current contents",
 	"C10": "clobber: safe-option variants only; after generated Unmarshal the input buffer is overwritten with 0xff and the message is read back through the runtime's encoder before and after",
+	"C12": "extensions: for every generated message type with extension ranges (scalar kinds, enum, string/bytes, message) and each of gogo / golang v1 API / google v2: random histories of Set/Clear/ClearAll with a full observation (Has, Get, Range, ExtensionFieldNumber, marshaled bytes) after every step, the same history driven through the owning runtime's own API on a twin message, and an abstract map as the specification; descriptors of the other runtime family must be refused without modifying the message",
 	"C17": "required: proto2 types with required fields (top level, nested, repeated element, map value, oneof member); random subsets left unset; Marshal must fail exactly when dynamicpb's CheckInitialized fails; Unmarshal must fail exactly when the reference reports a missing required field; the empty message and the empty input included",
 }
 
